@@ -14,6 +14,8 @@ var argPool = []string{
 	"multi\n\nblank", "end\n", "\nstart",
 	// blanks at the very end / start of a (multi-line) value: not next to a line break, so every form must keep them
 	"first\nsecond ", "one\ntwo\t", "trail ", " lead", "a\nb\nlast  ",
+	// continuation lines with blanks of their own (they lie beyond the column of the opening quote)
+	"first\n  indented", "x\n        eight\n y", "é日\n   after wide characters",
 	// several backslashes, a backslash before n / t / r / a quote, and real escapes after an escaped backslash
 	"C:\\dir\\new", "\\d+\\t+", "a\\b\tc", "x\\y\nz\\", "\\\\n", "\\n\\t\\r\\\"", "a\\\"b\\nc", "\\", "\\\\",
 	// a sign in front: still one unquoted token
